@@ -31,8 +31,30 @@ func init() {
 			"no duplicates, ascending, never more than m scheduled leaves alive at a block boundary, complete when m >= #leaves. Non-trivial = history in which some leaf is created and later deleted; distinct = distinct (history shape, m).",
 		Assumptions: []string{"the ledger is kept by the monitor while the history is generated; no library code is involved in the expectation"},
 		MinDistinct: 100,
-		Plan:        func(tier string) []core.Suite { return c15Plan(tier).suites() },
+		Plan: func(tier string) []core.Suite {
+			n := 1
+			if tier == "thorough" {
+				n = 4
+			}
+			return append(c15Plan(tier).suites(), core.Suite{Name: "huge", N: n, CaseTimeout: 1800})
+		},
 		Run: func(c *core.Ctx) {
+			if c.Suite == "huge" {
+				// more than 2^16 leaves that will be deleted are alive at once, and the limit is larger still
+				tag := uint64(c.Seed)<<32 | uint64(c.Index) | 1<<51
+				extra := []int{2, 4465, 1, 70000 - 65535}[c.Index%4] + c.Rng.Intn(50)
+				h := gen.History{Tag: tag, Blocks: []gen.Block{{Adds: 65535}, {Adds: extra}}}
+				n := 65535 + extra
+				var dels []int
+				keep := c.Rng.Intn(3)
+				for sl := 0; sl < n-keep; sl++ {
+					dels = append(dels, sl)
+				}
+				c.Rng.Shuffle(len(dels), func(i, j int) { dels[i], dels[j] = dels[j], dels[i] })
+				h.Blocks = append(h.Blocks, gen.Block{Dels: dels, Adds: c.Rng.Intn(3)})
+				c15Check(c, histScenario{History: h})
+				return
+			}
 			c15Check(c, histScenario{History: c15Plan(c.Tier).history(c)})
 		},
 		Replay: func(c *core.Ctx, raw json.RawMessage) {
@@ -100,6 +122,12 @@ func c15Check(c *core.Ctx, s histScenario) {
 	if nLeaves == 0 {
 		mems = []int{1}
 	}
+	if nLeaves > 60000 {
+		mems = []int{nLeaves + 30000} // the huge suite: a limit above 2^16 (each schedule costs ~20 s)
+		if c.Tier == "thorough" {
+			mems = append(mems, 65536)
+		}
+	}
 	for _, mem := range mems {
 		if mem < 1 {
 			continue
@@ -107,6 +135,9 @@ func c15Check(c *core.Ctx, s histScenario) {
 		c.Eval(1)
 		sch := cs.GenerateCachingSchedule(mem)
 		desc := fmt.Sprintf("maxMemory=%d, %d blocks, %d leaves ever, %d created-and-deleted: schedule %v", mem, len(h.Blocks), nLeaves, qualifying, sch)
+		if nLeaves > 2000 {
+			desc = fmt.Sprintf("maxMemory=%d, %d blocks, %d leaves ever, %d created-and-deleted (schedule too long to print)", mem, len(h.Blocks), nLeaves, qualifying)
+		}
 		if len(sch) != len(h.Blocks) {
 			c.Violate("GenerateCachingSchedule", "schedule-length", trig, desc)
 			return
@@ -168,7 +199,7 @@ func c15Check(c *core.Ctx, s histScenario) {
 		c.Count("histories_overwriting_empty_roots", 1)
 	}
 	c.Count("histories", 1)
-	if qualifying > 0 && c.WantSample(c.Suite) {
+	if qualifying > 0 && nLeaves <= 2000 && c.WantSample(c.Suite) {
 		c.Sample(c.Suite, map[string]any{"history": h, "unbounded_schedule": cs.GenerateCachingSchedule(nLeaves)})
 	}
 }
